@@ -215,6 +215,22 @@ func TDRandom(rng *rand.Rand, n int, startID int) []*TDCase {
 		}
 		out = append(out, c)
 	}
+	// identities that differ only in a "special" value: printf / date verbs with different flags, blanks, case,
+	// path-like and non-ASCII values, as parameter value, as tag value and as process name
+	special := []string{"%d", "%5d", "%05d", "%s", "%10s", "%-10s", "%.2f", "%8.3f", "%Y-%m-%d", "%Y-%-m-%-d", "100%", "%%", "%", "a b", "a  b", "a_b", "a-b",
+		"A", "a", "Qc Report", "qc_report", "qc report", "a/b", "a\\b", "a.b", "\u00e9", "e\u0301", "x=1", "x=1,y=2", "{p:x}", "$HOME", "*", "a*"}
+	id := startID + n + 1000
+	for _, v := range special {
+		id += 3
+		out = append(out,
+			&TDCase{ID: id, Name: "fmt", In: map[string]string{"in": "d/f.txt"}, Joined: map[string][]string{}, Params: map[string]string{"fmt": v}, Tags: map[string]string{}},
+			&TDCase{ID: id + 1, Name: "fmt", In: map[string]string{"in": "d/f.txt"}, Joined: map[string][]string{}, Params: map[string]string{}, Tags: map[string]string{"in.fmt": v}},
+			&TDCase{ID: id + 2, Name: "step " + v, In: map[string]string{"in": "d/f.txt"}, Joined: map[string][]string{}, Params: map[string]string{}, Tags: map[string]string{}})
+	}
+	// two parameter names that differ only in case
+	for k, v := range []string{"1", "2"} {
+		out = append(out, &TDCase{ID: id + 10 + k, Name: "cased", In: map[string]string{"in": "d/f.txt"}, Joined: map[string][]string{}, Params: map[string]string{"n": v, "N": "7"}, Tags: map[string]string{"in.k": "x", "in.K": "y"}})
+	}
 	// every name length around the boundary once
 	for l := 1; l <= 420; l++ {
 		out = append(out, &TDCase{ID: startID + n + l, Name: strings.Repeat("q", l), In: map[string]string{"in": "d/f.txt"}, Joined: map[string][]string{}, Params: map[string]string{}, Tags: map[string]string{}})
